@@ -153,9 +153,64 @@ func C02(r *core.Run) {
 			emit(rtRes{Text: t, Out: gen.Stdout, Got: string(b), OK: up.Exit == 0 && string(b) == want})
 		})
 	})
+	// programs that make the tool talk (warnings, debug and trace records), at every log level and output mode: what
+	// `generate` prints on standard output is the regex and nothing else
+	type talkRes struct {
+		Text, Args, Stdout, Want string
+		Exit                     int
+	}
+	talk, d2 := core.Parallel(r, "talk", pcIn{}, r.Workers, func(in pcIn, shard, n int, emit func(talkRes)) {
+		d := core.Scratch("c02talk")
+		defer os.RemoveAll(d)
+		tree := c01Tree()
+		tree["regex-assembly/include/withdefs.ra"] = "##!> define unused x\n##!> define used [a-c]\n{{used}}1\n{{other}}2\n"
+		tree.Materialise(d)
+		root := inproc.NewRoot(d)
+		texts := []string{
+			"##!> define a b\n{{foo}}x{{baz}}\n", "##!> define a b\n{{a}}\n{{a\n", "a\"\n##!=< n\nb\n##!=< n\n##!=> n\n", "x\n##!=< n\n##!=< m\n##!=> n\n##!=> m\n",
+			"##!> include withdefs\n{{used}}\n", "##!> include-except withdefs incd -- 1 2\n", "##!+ i\n[A-Z]x\n", "##!> cmdline unix\n##!<\nfoo\n", "##!> assemble\n##!<\n\"\n",
+			"##! only a comment\n", "a|b|c\n(?i:d)\n", "\\\\\"\n", "##!^ \"\n##!$ \\\\\nx\n",
+		}
+		idx := 0
+		for _, text := range texts {
+			o := root.Generate(text)
+			if o.Kind != inproc.OK {
+				continue
+			}
+			for _, pre := range [][]string{nil, {"-l", "trace"}, {"--log-level", "debug"}, {"--log-level=info"}, {"-l", "warn"}, {"-l", "error"}, {"-o", "github"}, {"-o", "github", "-l", "trace"}} {
+				if idx++; idx%n != shard {
+					continue
+				}
+				for _, stdin := range []bool{true, false} {
+					args := append(append([]string{"-d", d}, pre...), "regex", "generate")
+					input := text
+					if stdin {
+						args = append(args, "-")
+					} else {
+						os.WriteFile(filepath.Join(d, "regex-assembly", fmt.Sprintf("1%05d.ra", shard)), []byte(text), 0o644)
+						args, input = append(args, fmt.Sprintf("1%05d", shard)), ""
+					}
+					res := core.RunCLI(r.Crs, d, input, nil, args...)
+					emit(talkRes{text, strings.Join(args[2:], " "), res.Stdout, o.Out, res.Exit})
+				}
+			}
+		}
+	})
+	deaths = append(deaths, d2...)
 	if r.IsWorker() {
 		return
 	}
+	talkRuns := 0
+	seenTalk := map[string]bool{}
+	for _, t := range talk {
+		talkRuns++
+		if (t.Exit != 0 || t.Stdout != t.Want) && !seenTalk[t.Text] {
+			seenTalk[t.Text] = true
+			r.Report(core.Violation{Clause: "one-line-printable", Key: "stdout of " + t.Args + " on " + t.Text,
+				What: fmt.Sprintf("program %q: `%s` exits %d and prints %q on standard output, the regex is %q", t.Text, t.Args, t.Exit, tailStr(t.Stdout, 200), t.Want), Detail: t})
+		}
+	}
+	r.Cov["talkative_program_runs_cli"] = talkRuns
 	for _, d := range deaths {
 		r.HarnessError("worker %s/%d %s on %q", d.Stage, d.Shard, d.Kind, d.Case)
 	}
